@@ -45,6 +45,7 @@ class Prop(BaseProp):
         mn = mnemonic_from_entropy("00" * 16)
         texts = [(mn, ""), (mn, "TREZOR"), (mn, "péss"), (mn, "péss"), (mn, "ﬁsh Å ㎡"), (mn, "́abc"),
                  ("café naïve", "Å"), ("あいこくしん　あいこくしん", "メートル　パス"),
+                 (mn, "mnemonic#2"), (mn + "mnemonic", "#2"),          # different pairs whose PBKDF2 arguments concatenate to the same bytes
                  ("", ""), ("a", "b" * 200), ("①② ½", "ẛ̣"), (mn.upper(), "x")]
         if T:
             for _ in range(20):
